@@ -469,6 +469,36 @@ func (e *C19) distances(c *core.Ctx, r *core.Rng) {
 		}
 		return r.U64()
 	}
+	// edge pairs: a hash and its complement (every bit differs), and exact distances 1, 63..65,
+	// 127..129, 191..193, 255, 256 built by flipping the first n bits
+	for k := 0; k < 64; k++ {
+		var A, B imagehash.PHash256
+		for i := range A {
+			A[i] = pick64()
+		}
+		n := []int{256, 255, 1, 63, 64, 65, 127, 128, 129, 191, 192, 193, 254, 2, 0, 200}[k%16]
+		B = A
+		for bit := 0; bit < n; bit++ {
+			B[bit/64] ^= 1 << uint(63-bit%64)
+		}
+		c.Rec.Eval(2)
+		if got := A.Distance(B); int(got) != n || int(B.Distance(A)) != n {
+			c.Rec.Violation("dist256:popcount", fmt.Sprintf("PHash256 d(a,b)=%d d(b,a)=%d for hashes that differ in exactly %d bits (a=%016x%016x%016x%016x)", got, B.Distance(A), n, A[0], A[1], A[2], A[3]), nil)
+		}
+		a := imagehash.PHash64(A[0])
+		m := n
+		if m > 64 {
+			m = 64
+		}
+		b := a
+		for bit := 0; bit < m; bit++ {
+			b ^= 1 << uint(63-bit)
+		}
+		if int(a.Distance(b)) != m || int(b.Distance(a)) != m {
+			c.Rec.Violation("dist64:popcount", fmt.Sprintf("PHash64 d(a,b)=%d for hashes that differ in exactly %d bits (a=%016x)", a.Distance(b), m, uint64(a)), nil)
+		}
+		c.Rec.SigHash(core.HashStr(fmt.Sprintf("dist-edge/%d", n)))
+	}
 	for k := 0; k < 2000; k++ {
 		a, b, d := imagehash.PHash64(pick64()), imagehash.PHash64(pick64()), imagehash.PHash64(pick64())
 		c.Rec.Eval(5)
